@@ -218,8 +218,8 @@ def judge(r):
           "stale_channels": 0, "resumed_channels": 0, "replayed_updates": 0, "closed_onchain": 0, "payments": 0,
           "payments_terminal": 0, "exempt_payments": 0, "redelivery_checked": 0, "recrash": 0, "lagged": 0, "inflight_at_crash": 0}
 
-    def bad(j, what):
-        V.append({"judge": j, "what": what})
+    def bad(j, what, key=None):
+        V.append({"judge": j, "what": what, "key": key})
 
     if r.get("panic"):
         bad("panic" if r.get("phase") not in ("reload", "recrash") else "read",
@@ -292,10 +292,22 @@ def judge(r):
         allowed |= outdated
     for (n, c, why) in r["closed"]:
         if c not in allowed:
-            bad("collateral", "node %d closed chan %s (%s) although it was neither stale nor closed by the scenario: an HTLC was lost or left unresolved" % (n, c, why[:90]))
+            bad("collateral", "node %d closed chan %s (%s) although it was neither stale nor closed by the scenario: an HTLC was lost or left unresolved" % (n, c, why[:90]),
+                key=f4key)
     # ---- payments
     evs = r.get("all_events", [])
     closed_any = bool(r["closed"])
+    # Known finding F4: before the crash the node force-closed a channel (its own decision or the peer's error) while
+    # monitor updates of that channel were still in flight; applying ChannelForceClosed broadcasts the LATEST holder
+    # commitment from the in-memory monitor at once. If the in-flight writes never land, the monitor read back after the
+    # crash does not know the commitment transaction that is on chain and cannot resolve its HTLCs.
+    n_after0 = len(r.get("events_after", []))
+    before0 = evs[:len(evs) - n_after0] if n_after0 <= len(evs) else []
+    f4_chans = set()
+    for d in r["disk"]:
+        if d["chosen"] < d["handed"] and any(e[0] == x and e[1] == "ChannelClosed" and e[2].startswith(d["chan"]) for e in before0):
+            f4_chans.add(d["chan"])
+    f4key = "F4-holder-commitment-broadcast-from-unpersisted-monitor-state" if f4_chans else None
     if closed_any:
         st["closed_onchain"] = 1
     for p in r["payments"]:
@@ -304,12 +316,21 @@ def judge(r):
         sent = [e for e in evs if e[0] == p["from"] and e[1] == "PaymentSent" and e[2] == tag]
         failed = [e for e in evs if e[0] == p["from"] and e[1] == "PaymentFailed" and e[2] == tag]
         claimed_ev = [e for e in evs if e[0] == p["to"] and e[1] == "PaymentClaimed" and e[2] == tag]
+        # Known finding F3: the payment was fulfilled and PaymentSent handled BEFORE the crash; the restored manager
+        # snapshot predates the fulfil, the monitor has already forgotten the resolved HTLC, the stale channel is closed
+        # and the "HTLC missing in the ChannelMonitor" path fails the payment a second time.
+        n_after = len(r.get("events_after", []))
+        before = evs[:len(evs) - n_after] if n_after <= len(evs) else []
+        sent_before = [e for e in before if e[0] == p["from"] and e[1] == "PaymentSent" and e[2] == tag]
+        failed_after = [e for e in r.get("events_after", []) if e[0] == p["from"] and e[1] == "PaymentFailed" and e[2] == tag]
+        f3 = bool(p["from"] == x and sent_before and failed_after and p["first_chan"] in stale_chans and p["sent_step"] <= r["k"] - r["lag"])
+        f3key = "F3-payment-failed-after-sent-when-stale-manager-predates-fulfil" if f3 else None
         if sent and failed:
-            bad("payment", "payment %s got both PaymentSent and PaymentFailed" % tag)
+            bad("payment", "payment %s got both PaymentSent and PaymentFailed%s" % (tag, " (PaymentSent before the crash, PaymentFailed after restarting from a manager snapshot older than the fulfil)" if f3 else ""), key=f3key)
         if sent and tag not in r["claim_ops"]:
             bad("payment", "payment %s reported sent although the recipient never claimed it" % tag)
         if failed and claimed_ev:
-            bad("payment", "payment %s failed at the sender although the recipient was told PaymentClaimed" % tag)
+            bad("payment", "payment %s failed at the sender although the recipient was told PaymentClaimed" % tag, key=f3key)
         if sent or failed:
             st["payments_terminal"] += 1
             continue
@@ -320,8 +341,10 @@ def judge(r):
             if not in_snapshot:
                 st["exempt_payments"] += 1
                 continue
-        bad("payment", "payment %s (%d->%d, sent at step %d) reached no terminal event after the restart (crash node %d, k=%d lag=%d)" % (
-            tag, p["from"], p["to"], p["sent_step"], x, r["k"], r["lag"]))
+        bad("payment", "payment %s (%d->%d, sent at step %d) reached no terminal event after the restart (crash node %d, k=%d lag=%d)%s" % (
+            tag, p["from"], p["to"], p["sent_step"], x, r["k"], r["lag"],
+            " [channel(s) %s were force-closed before the crash from a monitor state that never became durable]" % sorted(f4_chans) if f4_chans else ""),
+            key=f4key)
     # ---- events pending in the snapshot are delivered again
     if r.get("expect_events"):
         got = [(e[1], e[2]) for e in r["events_after"] if e[0] == x]
@@ -336,7 +359,8 @@ def judge(r):
     # ---- after everything: nothing stuck when no channel had to go on chain
     for c in r["final_chans"]:
         if c["in"] or c["out"]:
-            bad("stuck", "node %d chan %s still has %d/%d HTLCs pending after recovery (and on-chain resolution of closed channels)" % (c["n"], c["chan"], c["in"], c["out"]))
+            bad("stuck", "node %d chan %s still has %d/%d HTLCs pending after recovery (and on-chain resolution of closed channels)" % (c["n"], c["chan"], c["in"], c["out"]),
+                key=f4key)
     if not closed_any:
         if r["errs"]:
             bad("errors", "protocol errors although no channel was stale: " + "; ".join(r["errs"][:2])[:300])
